@@ -19,6 +19,7 @@ var TokWidth = append([]string{
 	"\u200b", "\u200d", "\ufeff", "\u202a", // zero width
 	"\U0001f469", "\U0001f469\u200d\U0001f4bb", "\U0001f1e6\U0001f1e7", "\u2764\ufe0f", "\U0001f44d\U0001f3fd", // emoji sequences
 	"\uff9e", "\uff76\uff9e", "\u0903", "\u0915\u0903", // width-1 extender, spacing mark
+	"\u0600", "\u06dd1", "\u0600123", "\u0d4e\u0d15", // Prepend characters: they join the character that FOLLOWS them
 	"\u00a0", "\u3000", // NBSP, ideographic space
 	"\t", "\r",
 	"\n", "\n\n", "a\nb", "\nq", "q\n",
